@@ -6,6 +6,7 @@ import (
 	"fmt"
 	"go/ast"
 	"go/parser"
+	"go/printer"
 	"go/token"
 	"go/types"
 	"os"
@@ -51,6 +52,8 @@ type Contract struct {
 	Lets     []LetClause
 	Uses     []Clause
 	LoopUses map[string][]Clause
+	Specialize map[string][]string
+	Inherited string // contract inherited from this (identical) repository package
 }
 
 // LetClause: `let NAME = arg(CALLEE, occurrence, index)` or `ret(CALLEE, occurrence, index)` binds a
@@ -107,6 +110,8 @@ type Universe struct {
 	RepoDir   string
 	ModPath   string
 	HookFiles []string
+	SameAs    map[string]string // dependency package -> repository package with identical code
+	Notes     []string
 }
 
 func loadUniverse(repo string, extraTags string, patterns ...string) (*Universe, error) {
@@ -185,7 +190,7 @@ func (u *Universe) loadDeps(dir string) error {
 
 var clauseWords = map[string]bool{"requires": true, "ensures": true, "modifies": true, "panics": true,
 	"loop": true, "repr": true, "inline": true, "props": true, "opaque": true, "unroll": true, "note": true, "induct": true, "cover": true,
-	"bv": true, "let": true, "use": true, "noframe": true}
+	"bv": true, "let": true, "use": true, "noframe": true, "specialize": true}
 
 func (u *Universe) parseContractFile(path, pkgPath string, deps bool) error {
 	data, err := os.ReadFile(path)
@@ -294,6 +299,14 @@ func (u *Universe) parseContractFile(path, pkgPath string, deps bool) error {
 			curC, curL = nil, nil
 			pkgPath = rest
 			continue
+		case "sameas":
+			// the functions of this dependency package that are textually identical to the named
+			// repository package inherit that package's (proved) contracts
+			if u.SameAs == nil {
+				u.SameAs = map[string]string{}
+			}
+			u.SameAs[pkgPath] = rest
+			continue
 		case "props":
 			if curC == nil && curL == nil {
 				defaultProps = strings.Fields(rest)
@@ -305,7 +318,7 @@ func (u *Universe) parseContractFile(path, pkgPath string, deps bool) error {
 				curL.Props = strings.Fields(rest)
 			}
 			continue
-		case "func", "assume":
+		case "func", "assume", "prove":
 			if err := flush(); err != nil {
 				return err
 			}
@@ -315,6 +328,10 @@ func (u *Universe) parseContractFile(path, pkgPath string, deps bool) error {
 			if word == "assume" {
 				hdr = rest
 				assumed = true
+			}
+			if word == "prove" {
+				hdr = rest
+				assumed = false
 			}
 			fd, err := parseFuncHeader(hdr)
 			if err != nil {
@@ -470,6 +487,16 @@ func (u *Universe) parseContractFile(path, pkgPath string, deps bool) error {
 			lastClause = nil
 		case "noframe":
 			curC.NoFrame = true
+			lastClause = nil
+		case "specialize":
+			f := strings.Fields(rest)
+			if len(f) < 2 {
+				return fmt.Errorf("%s: bad specialize clause", where)
+			}
+			if curC.Specialize == nil {
+				curC.Specialize = map[string][]string{}
+			}
+			curC.Specialize[f[0]] = f[1:]
 			lastClause = nil
 		case "bv":
 			curC.BVNames = append(curC.BVNames, strings.Fields(rest)...)
@@ -717,3 +744,46 @@ func (u *Universe) resolveType(pkg *packages.Package, e ast.Expr) (types.Type, e
 var mathIntType = types.NewNamed(types.NewTypeName(token.NoPos, nil, "mathint", nil), types.Typ[types.Int], nil)
 
 func isMathInt(t types.Type) bool { return t == mathIntType }
+
+// resolveSameAs registers inherited contracts for dependency packages declared `sameas` a repo
+// package: only for functions whose printed declarations are identical.
+func (u *Universe) resolveSameAs() []string {
+	var notes []string
+	for dep, repo := range u.SameAs {
+		dp, rp := u.Pkgs[dep], u.Pkgs[repo]
+		if dp == nil || rp == nil {
+			notes = append(notes, fmt.Sprintf("sameas %s %s: package not loaded", dep, repo))
+			continue
+		}
+		for key, c := range u.Contracts {
+			if c.PkgPath != repo || c.Assumed {
+				continue
+			}
+			_ = key
+			rf, _ := findFunc(rp, c.Key)
+			df, _ := findFunc(dp, c.Key)
+			if rf == nil || df == nil {
+				continue
+			}
+			if printNode(u.Fset, rf) != printNode(u.Fset, df) {
+				notes = append(notes, fmt.Sprintf("%s.%s differs from %s.%s: contract not inherited", dep, c.Key, repo, c.Key))
+				continue
+			}
+			if _, exists := u.Contracts[dep+"."+c.Key]; exists {
+				continue
+			}
+			cc := *c
+			cc.PkgPath = dep
+			cc.Inherited = repo
+			cc.Props = nil
+			u.Contracts[dep+"."+c.Key] = &cc
+		}
+	}
+	return notes
+}
+
+func printNode(fset *token.FileSet, n ast.Node) string {
+	var sb strings.Builder
+	printer.Fprint(&sb, fset, n)
+	return sb.String()
+}
